@@ -75,3 +75,178 @@ Proof.
   - split; [intros x [Hx|[Hx|[]]]; subst; reflexivity|]. intros _. exists f_tfrom. split; [right; left; reflexivity | reflexivity].
   - vm_compute. reflexivity.
 Qed.
+
+(* ======================================================================================
+   Bridge plan -> rows (C14 -> C11).  Model/BridgePlanRows.v, Proofs/BridgePlanRowsP.v.
+   [d : Rows.decl] is the integration handed to dig.New (block data AFTER
+   config.AddRequiredFields); [needs] is what Integration.Filter() hands to glf.New for it:
+   [plan_request_of d needs] = "needs[i] is the name of d's i-th block-data entry" (Rows.v
+   writes names as byte lists, Plan.v as strings; s2b is injective).  Rows-side names are
+   qualified (Rows., Filter., Outcome.); unqualified names are the planner's.
+   Field universe: the 28 case labels of Gen/GetFields.v (regenerated) = the 28
+   constructors of Rows.field; finite side conditions over them and over the planner
+   tables are decided by vm_compute on every run ([bridge_side_conditions]) and lifted with
+   forallb_forall; declarations, requests and field sets are NOT bounded. *)
+From Shovel Require Base.Outcome Model.Filter Model.Rows.
+From Shovel Require Import Model.BridgePlanRows Proofs.BridgePlanRowsP.
+
+(* the finite side conditions, on the tables regenerated from the source of this run:
+   every name of a planner table is a case label of get; a case label reads a trace item iff
+   it has the "trace_" prefix; the names AddRequiredFields adds are case labels; the names
+   of Rows.get_field are the case labels and read the same kind of item (ctx / header / tx /
+   receipt / log / trace); every name that can switch a planner flag on is filled by that
+   flag's request; for all 32 flag values Client.Get makes a request (other than the bare
+   numbers) only under a flag that is on *)
+Theorem bridge_side_conditions :
+  bridge_checks glf_tables get_fields = true
+  /\ steps_useful glf_tables glf_steps provides_gen get_fields = true
+  /\ dispatch_guarded disp_gen = true.
+Proof. exact (conj bridge_checks_gen (conj steps_useful_gen dispatch_guarded_gen)). Qed.
+Print Assumptions bridge_side_conditions.
+
+(* [rows_read_names d] is what the row builder reads: processTx (tx and trace rows) and
+   processLog (log rows) see the delivered block / transaction / log / trace item / context
+   only through logWithCtx.get on those names -- two environments that agree there give the
+   same rows, errors and panics included *)
+Theorem rows_read_only_declared_names : forall d dbs e1 e2,
+  (forall n, In n (rows_read_names d) -> Rows.get_field e1 n = Rows.get_field e2 n) ->
+  Rows.process_tx d dbs e1 = Rows.process_tx d dbs e2
+  /\ (Rows.indexing Rows.fixed d = Rows.IxLog ->
+      forall l, Rows.process_log Rows.fixed d dbs e1 l = Rows.process_log Rows.fixed d dbs e2 l).
+Proof.
+  exact (fun d dbs e1 e2 H => conj (process_tx_reads_only_l d dbs e1 e2 H)
+                                   (fun Hm l => process_log_reads_only_l d dbs e1 e2 l Hm H)).
+Qed.
+Print Assumptions rows_read_only_declared_names.
+
+(* and the value read under a name is a function of the one item [field_item] says *)
+Theorem field_read_from_its_item : forall F c ig b t l a c' ig' b' t' l' a',
+  match field_item F with
+  | ICtx => c = c' /\ ig = ig'
+  | IHeader => Rows.b_hash b = Rows.b_hash b' /\ Rows.b_num b = Rows.b_num b' /\ Rows.b_time b = Rows.b_time b'
+  | ITx | IReceipt => t = t'
+  | ILog => l = l'
+  | ITrace => a = a'
+  end -> Rows.field_of F c ig b t l a = Rows.field_of F c' ig' b' t' l' a'.
+Proof. exact field_of_reads_only_its_item. Qed.
+Print Assumptions field_read_from_its_item.
+
+(* (1) every field name the row builder reads for ANY declaration d is a name of the request
+   made for d; it is a case label [f] of get reading the same kind of item, member of the
+   request's field set S = plan_fields get_fields needs, hence of needs_of m S = declared +
+   required *)
+Theorem rows_read_fields_requested : forall d needs, plan_request_of d needs ->
+  forall F, In (Filter.s2b (Rows.field_name F)) (rows_read_names d) ->
+  In (Rows.field_name F) needs /\
+  exists f, In f (plan_fields get_fields needs) /\ f_name f = Rows.field_name F /\ f_class f = field_item F /\
+    In (Rows.field_name F) (needs_of (mode_of (Rows.indexing Rows.fixed d)) (plan_fields get_fields needs)).
+Proof. exact rows_read_fields_requested_l. Qed.
+Print Assumptions rows_read_fields_requested.
+
+(* the request of a declaration that went through AddRequiredFields ([required_present]) and
+   C14's [needs_of m S]: same case labels, same plan (names in no planner table -- abi_idx,
+   unknown names -- do not influence glf.New) *)
+Theorem request_is_declared_plus_required : forall m needs, required_present m needs ->
+  incl (needs_of m (plan_fields get_fields needs)) needs
+  /\ (forall f, In f get_fields -> In (f_name f) needs -> In (f_name f) (needs_of m (plan_fields get_fields needs)))
+  /\ new glf_tables glf_steps needs = new glf_tables glf_steps (needs_of m (plan_fields get_fields needs)).
+Proof. exact request_is_declared_plus_required_l. Qed.
+Print Assumptions request_is_declared_plus_required.
+
+(* (2) for EVERY declaration d (any inputs, any block-data list, any length) whose request
+   contains the required names of its mode and names a log field only for log rows: every
+   field name the row builder reads is a case label whose struct field is FILLED by at least
+   one request of the plan glf.New selects for d's own request, and those requests make all
+   items of the mode exist ([filled]; context fields need no request).  On a node that
+   answers honestly no stored cell is a zero default left by a request that was not made. *)
+Theorem plan_fills_what_rows_read : forall d needs, plan_request_of d needs ->
+  required_present (mode_of (Rows.indexing Rows.fixed d)) needs ->
+  log_fields_only_in_log_mode get_fields (mode_of (Rows.indexing Rows.fixed d)) needs ->
+  forall F, In (Filter.s2b (Rows.field_name F)) (rows_read_names d) ->
+  exists f, In f get_fields /\ f_name f = Rows.field_name F /\ f_class f = field_item F /\
+    filled provides_gen (disp_gen (new glf_tables glf_steps needs)) (mode_of (Rows.indexing Rows.fixed d)) f.
+Proof. exact plan_fills_what_rows_read_l. Qed.
+Print Assumptions plan_fills_what_rows_read.
+
+(* the second precondition is implied by the existence of ONE emitted row (C11: a log field
+   outside log rows makes logWithCtx.get dereference a nil log on every item) *)
+Theorem emitted_row_implies_selectable : forall d needs c dbs blocks rows r, plan_request_of d needs ->
+  Rows.insert Rows.fixed d c dbs blocks = Outcome.Ok rows -> In r rows ->
+  log_fields_only_in_log_mode get_fields (mode_of (Rows.indexing Rows.fixed d)) needs.
+Proof. exact row_exists_selectable_l. Qed.
+Print Assumptions emitted_row_implies_selectable.
+
+(* C11 and C14 composed.  Every row Insert emits was built for one transaction / log / trace
+   action of the delivered blocks; each block-data cell bound to a field name holds that field
+   of THAT item (C11: block_field_of_enclosing_item_log, _tx, _trace), and that field is filled by the plan
+   selected for the same declaration.  Only premise beyond the two layers: the request
+   contains the required names (post-condition of config.AddRequiredFields). *)
+Theorem stored_block_cells_are_fetched : forall d needs c dbs blocks rows r, plan_request_of d needs ->
+  required_present (mode_of (Rows.indexing Rows.fixed d)) needs ->
+  Rows.insert Rows.fixed d c dbs blocks = Outcome.Ok rows -> In r rows ->
+  exists b t lo ao, In b blocks /\ In t (Rows.b_txs b) /\ item_of_mode (Rows.indexing Rows.fixed d) t lo ao /\
+    forall k bd F, nth_error (Rows.d_block d) k = Some bd -> Rows.bd_name bd = Filter.s2b (Rows.field_name F) ->
+      nth_error r (bd_offset d + k) = Rows.field_of F c (Rows.d_name d) b t lo ao
+      /\ Rows.field_of F c (Rows.d_name d) b t lo ao <> None
+      /\ exists f, In f get_fields /\ f_name f = Rows.field_name F /\ f_class f = field_item F /\
+           filled provides_gen (disp_gen (new glf_tables glf_steps needs)) (mode_of (Rows.indexing Rows.fixed d)) f.
+Proof. exact stored_cells_gen. Qed.
+Print Assumptions stored_block_cells_are_fetched.
+
+(* (3) converse, for arbitrary tables and steps: a flag is set only if the request names a
+   member of the trigger set of one of that flag's if-blocks; and on the regenerated tables,
+   for ANY request: every request Client.Get then makes, other than the bare block numbers,
+   fills the struct field of a case label that the request names -- no useless RPC *)
+Theorem plan_flag_needed : forall T steps needs fl, flag_on (new T steps needs) fl = true ->
+  exists st x, In st steps /\ st_flag st = fl /\ In x needs /\ mem x (step_set T st) = true.
+Proof. exact PS.flag_needed. Qed.
+Print Assumptions plan_flag_needed.
+
+Theorem no_useless_fetch : forall needs g, In g (disp_gen (new glf_tables glf_steps needs)) ->
+  g = GNumbers \/
+  exists x f, In x needs /\ In f get_fields /\ f_name f = x /\ In g (provides_gen (f_acc f)).
+Proof. exact no_useless_fetch_l. Qed.
+Print Assumptions no_useless_fetch.
+
+(* both preconditions of (2) are necessary: [plan_fills_stmt .. true true] is (2) with
+   [supplied_b]; with the first switch off (AddRequiredFields did not run: block_time alone
+   selects headers only, no transaction exists) and with the second off (log_addr without an
+   event: eth_getLogs only) the statement is false *)
+Theorem plan_fills_with_both_preconditions :
+  plan_fills_stmt glf_tables glf_steps disp_gen provides_gen get_fields true true.
+Proof. exact plan_fills_gen. Qed.
+Print Assumptions plan_fills_with_both_preconditions.
+
+Theorem plan_fills_needs_required_refuted :
+  ~ plan_fills_stmt glf_tables glf_steps disp_gen provides_gen get_fields false true.
+Proof. exact plan_fills_needs_required. Qed.
+Print Assumptions plan_fills_needs_required_refuted.
+
+Theorem plan_fills_needs_selectable_refuted :
+  ~ plan_fills_stmt glf_tables glf_steps disp_gen provides_gen get_fields true false.
+Proof. exact plan_fills_needs_selectable. Qed.
+Print Assumptions plan_fills_needs_selectable_refuted.
+
+(* non-vacuity: ERC-20 Transfer(address indexed, address indexed, uint256), all inputs selected,
+   block fields block_time, tx_status, log_addr + what AddRequiredFields appends.  Log rows; the
+   plan is headers + receipts; the 8 case labels the request names are read and each is supplied
+   (block_time by the headers, tx_status / log_addr / log_idx / tx_idx by the receipts); one row
+   is stored for a block with one Transfer log, so every premise of
+   stored_block_cells_are_fetched is satisfiable *)
+Example ex_erc20_transfer :
+  plan_request_of erc20_decl erc20_request
+  /\ Rows.indexing Rows.fixed erc20_decl = Rows.IxLog
+  /\ required_presentb MLog erc20_request = true
+  /\ rows_read_names erc20_decl = map Filter.s2b erc20_request
+  /\ new glf_tables glf_steps erc20_request = mkFlags true false true false false
+  /\ disp_gen (new glf_tables glf_steps erc20_request) = [GHeaders; GReceipts]
+  /\ map f_name (plan_fields get_fields erc20_request)
+     = ["src_name"; "ig_name"; "block_num"; "block_time"; "tx_idx"; "tx_status"; "log_idx"; "log_addr"]
+  /\ map (fun f => filter (fun g => has_fetch g (disp_gen (new glf_tables glf_steps erc20_request))) (provides_gen (f_acc f)))
+         (plan_fields get_fields erc20_request)
+     = [[]; []; [GHeaders]; [GHeaders]; [GReceipts]; [GReceipts]; [GReceipts]; [GReceipts]]
+  /\ forallb (supplied_b provides_gen (disp_gen (new glf_tables glf_steps erc20_request)) MLog)
+             (plan_fields get_fields erc20_request) = true
+  /\ Rows.insert_cells Rows.fixed erc20_decl erc20_ctx [] [erc20_block]
+     = Outcome.Ok erc20_cells.
+Proof. repeat split; vm_compute; reflexivity. Qed.
